@@ -1,6 +1,4 @@
 """C22 Exit codes reflect only unsuppressed failures."""
-from hypothesis import strategies as st
-
 from vlib import clilib as C
 from vlib.framework import Check, Outcome
 from vlib.sf import FORMAT_RULES, Crash, guard
@@ -10,53 +8,52 @@ USAGE_KINDS = ["unknown-dialect-cli", "unknown-dialect-cfg", "unknown-templater-
 NOT_DEMANDED = ["unknown-rule-ref", "unknown-exclude-ref"]
 
 
-@st.composite
-def scenario(draw):
-    if C.chance(draw, 1, 8):
-        kind = draw(st.sampled_from(USAGE_KINDS))
-        sql, names, _, _ = draw(C.content(errors="none", noqa="none", max_parts=2))
-        cmd = "format" if kind == "format-rules" else draw(st.sampled_from(["lint", "fix", "format"]))
+def scenario(pick):
+    if pick.chance(1, 8):
+        kind = pick.choice(USAGE_KINDS)
+        sql, names, _, _ = C.content(pick, errors="none", noqa="none", max_parts=2)
+        cmd = "format" if kind == "format-rules" else pick.choice(["lint", "fix", "format"])
         return {"sql": sql, "fname": "q.sql", "cfg": {"dialect": "ansi"}, "cmd": cmd, "usage": kind, "pieces": names}
-    limit = draw(st.sampled_from([None, None, None, None, 1, 2]))
-    focus = C.chance(draw, 1, 3)
+    limit = pick.choice([None, None, None, None, 1, 2])
+    focus = pick.chance(1, 3)
     if focus:
         # the corner the statement is about: a TMP/PRS error that is usually suppressed, next to lint violations that are
         # live, warnings or absent, under fix/format
-        sql, names, hkind, jinja = draw(C.content(errors="always", noqa="errors", max_parts=2,
-                                                  classes=("clean", "fixable", "fixable", "unfixable")))
+        sql, names, hkind, jinja = C.content(pick, errors="always", noqa="errors", max_parts=2,
+                                                  classes=("clean", "fixable", "fixable", "unfixable"))
     else:
-        sql, names, hkind, jinja = draw(C.content(errors="some", noqa="errors" if limit else "some", max_parts=3))
-    cfg = draw(C.core_cfg(feu=True, disable_noqa=True, templater_jinja=jinja))
+        sql, names, hkind, jinja = C.content(pick, errors="some", noqa="errors" if limit else "some", max_parts=3)
+    cfg = C.core_cfg(pick, feu=True, disable_noqa=True, templater_jinja=jinja)
     if limit:
         cfg["runaway_limit"] = limit
-    if C.chance(draw, 1, 6):
+    if pick.chance(1, 6):
         cfg["large_file_skip_fail"] = True  # nothing is ever skipped here, so it must not matter
     if focus:
         cfg.pop("ignore", None)
         cfg.pop("warnings", None)
-        i = draw(st.sampled_from([None, None, "parsing,templating", "parsing"]))
-        w = draw(st.sampled_from([None, "LT01,CP01,LT09,LT02,LT12", "LT01,CP01,LT09,LT02,LT12", "PRS,TMP",
-                                  "PRS,TMP,LT01,CP01,LT09,LT02,LT12", "AM01,AL04,LT05"]))
+        i = pick.choice([None, None, "parsing,templating", "parsing"])
+        w = pick.choice([None, "LT01,CP01,LT09,LT02,LT12", "LT01,CP01,LT09,LT02,LT12", "PRS,TMP",
+                                  "PRS,TMP,LT01,CP01,LT09,LT02,LT12", "AM01,AL04,LT05"])
         if i:
             cfg["ignore"] = i
         if w:
             cfg["warnings"] = w
     case = {"sql": sql, "fname": "q.sql", "cfg": cfg, "pieces": names,
-            "cmd": draw(st.sampled_from(["fix", "fix", "format"] if focus else ["lint", "lint", "fix", "format"]))}
-    if C.chance(draw, 1, 4):
+            "cmd": pick.choice(["fix", "fix", "format"] if focus else ["lint", "lint", "fix", "format"])}
+    if pick.chance(1, 4):
         case["fname"] = "sub/q.sql"
-        case["sub"] = draw(C.sub_cfg())
+        case["sub"] = C.sub_cfg(pick)
     cli = {}
-    if C.chance(draw, 1, 5):
-        cli["ignore"] = draw(st.sampled_from([i for i in C.IGNORES if i]))
-    if case["cmd"] == "fix" and C.chance(draw, 1, 8):
+    if pick.chance(1, 5):
+        cli["ignore"] = pick.choice([i for i in C.IGNORES if i])
+    if case["cmd"] == "fix" and pick.chance(1, 8):
         cli["feu"] = True
     if case["cmd"] == "lint":
-        if C.chance(draw, 1, 6):
+        if pick.chance(1, 6):
             cli["nofail"] = True
-        cli["format"] = draw(st.sampled_from(["human", "human", "json", "none", "yaml", "github-annotation-native"]))
-    if C.chance(draw, 1, 10):
-        case["usage"] = draw(st.sampled_from(NOT_DEMANDED if case["cmd"] != "format" else NOT_DEMANDED[1:]))
+        cli["format"] = pick.choice(["human", "human", "json", "none", "yaml", "github-annotation-native"])
+    if pick.chance(1, 10):
+        case["usage"] = pick.choice(NOT_DEMANDED if case["cmd"] != "format" else NOT_DEMANDED[1:])
     if cli:
         case["cli"] = cli
     return case
@@ -109,7 +106,7 @@ class C22(Check):
         assert lint_state([V("LT01")], {"ignore": "linting"}, [(1, "plain", None)]) == "suppressed-only(ignore)"
 
     def strategy(self, tier):
-        return scenario()
+        return C.scenarios(scenario)
 
     def examples(self, tier):
         return 10 if tier == "quick" else 250
